@@ -1,9 +1,883 @@
-//! Engine B: devices + in-process server storage joined by a direct client.
+//! Engine B: 2–3 devices (`LocalAccount`s on copies of one data dir) and an
+//! in-process `ServerStorage`, joined by a harness `SyncClient`
+//! (`DirectClient`) that calls `sos_server_storage::server_helpers` after
+//! passing every request and response through the wire encoding.  The real
+//! `sos_remote_sync::{RemoteSyncHandler, AutoMerge}` code runs unchanged.
+use crate::engine_acct::{decrypt_vault, hf, make_target, AcctCfg};
 use crate::framework::*;
-use serde_json::Value;
+use crate::secrets::*;
+use async_trait::async_trait;
+use futures::StreamExt;
+use secrecy::SecretString;
+use serde::{Deserialize, Serialize};
+use serde_json::{json, Value};
+use sos_account::{Account, LocalAccount};
+use sos_backend::BackendTarget;
+use sos_client_storage::{AccessOptions, NewFolderOptions};
+use sos_core::{
+    commit::CommitHash,
+    crypto::AccessKey,
+    events::{EventLog, EventRecord},
+    AccountId, Origin, Paths, SecretId, VaultFlags, VaultId,
+};
+use sos_login::DelegatedAccess;
+use sos_protocol::{
+    transfer::{FileTransferQueueRequest, FileTransferQueueSender},
+    DiffRequest, DiffResponse, PatchRequest, PatchResponse, ScanRequest,
+    ScanResponse, SyncClient, SyncOptions, WireEncodeDecode,
+};
+use sos_remote_sync::{AutoMerge, RemoteSyncHandler};
+use sos_server_storage::{server_helpers, ServerAccountStorage, ServerStorage};
+use sos_sync::{
+    CreateSet, ForceMerge, MergeOutcome, StorageEventLogs, SyncDirection,
+    SyncPacket, SyncStatus, SyncStorage, UpdateSet,
+};
+use std::collections::{BTreeMap, BTreeSet};
+use std::sync::{Arc, Mutex as StdMutex};
+use tokio::sync::{Mutex, RwLock};
+
+// ---------------------------------------------------------------------------
+// Server side
+// ---------------------------------------------------------------------------
+
+pub struct ServerSide {
+    pub temp: tempfile::TempDir,
+    pub target: BackendTarget,
+    pub account_id: AccountId,
+    pub storage: Option<ServerStorage>,
+    pub last_error: Option<String>,
+}
+
+pub type SharedServer = Arc<RwLock<ServerSide>>;
+
+pub async fn new_server(account_id: AccountId, db: bool) -> Result<SharedServer, Failure> {
+    let temp = tempfile::Builder::new()
+        .prefix("sv-server-")
+        .tempdir()
+        .map_err(hf("harness/tempdir", "tempdir"))?;
+    let paths = Paths::new_server(temp.path());
+    let target = if db {
+        let db_file = paths.database_file().clone();
+        if let Some(p) = db_file.parent() {
+            std::fs::create_dir_all(p).ok();
+        }
+        let mut client = sos_database::open_file(&db_file)
+            .await
+            .map_err(hf("harness/db-open", "open server db"))?;
+        sos_database::migrations::migrate_client(&mut client)
+            .await
+            .map_err(hf("harness/db-migrate", "migrate server db"))?;
+        BackendTarget::Database(paths, client)
+    } else {
+        Paths::scaffold(paths.documents_dir())
+            .await
+            .map_err(hf("harness/scaffold", "scaffold server"))?;
+        BackendTarget::FileSystem(paths)
+    };
+    Ok(Arc::new(RwLock::new(ServerSide {
+        temp,
+        target,
+        account_id,
+        storage: None,
+        last_error: None,
+    })))
+}
+
+/// One line of the request trace.
+#[derive(Clone, Debug)]
+pub struct TraceEntry {
+    pub device: usize,
+    pub request: &'static str,
+    pub bytes_out: usize,
+    pub bytes_in: usize,
+}
+
+#[derive(Clone, Default)]
+pub struct Tap {
+    pub trace: Arc<StdMutex<Vec<TraceEntry>>>,
+    /// every wire buffer (requests and responses) when capture is on
+    pub wire: Arc<StdMutex<Vec<Vec<u8>>>>,
+    pub capture: bool,
+}
+
+/// Request gate: lets a scheduler decide the order in which requests of
+/// concurrently running syncs reach the server.
+#[derive(Clone)]
+pub struct Gate {
+    pub tx: tokio::sync::mpsc::UnboundedSender<(usize, &'static str, tokio::sync::oneshot::Sender<()>)>,
+}
+
+#[derive(Clone)]
+pub struct DirectClient {
+    pub server: SharedServer,
+    pub origin: Origin,
+    pub device: usize,
+    pub tap: Tap,
+    pub gate: Option<Gate>,
+}
+
+type PResult<T> = Result<T, sos_protocol::Error>;
+
+fn server_error(e: impl std::fmt::Display) -> sos_protocol::Error {
+    // what a client of the real server sees for a failed request
+    let _ = e;
+    sos_protocol::Error::Network(sos_protocol::NetworkError::ResponseCode(http::StatusCode::INTERNAL_SERVER_ERROR))
+}
+
+impl DirectClient {
+    async fn pass_gate(&self, request: &'static str) {
+        if let Some(g) = &self.gate {
+            let (tx, rx) = tokio::sync::oneshot::channel();
+            if g.tx.send((self.device, request, tx)).is_ok() {
+                let _ = rx.await;
+            }
+        }
+    }
+
+    /// Encode then decode a value as the real client/server pair would.
+    async fn wire<T: WireEncodeDecode>(&self, v: T) -> PResult<(T, usize)> {
+        let bytes = v.encode().await?;
+        let n = bytes.len();
+        if self.tap.capture {
+            self.tap.wire.lock().unwrap().push(bytes.clone());
+        }
+        let back = T::decode(bytes::Bytes::from(bytes)).await?;
+        Ok((back, n))
+    }
+
+    fn record(&self, request: &'static str, bytes_out: usize, bytes_in: usize) {
+        self.tap.trace.lock().unwrap().push(TraceEntry {
+            device: self.device,
+            request,
+            bytes_out,
+            bytes_in,
+        });
+    }
+
+    async fn fail<T>(&self, e: impl std::fmt::Display, request: &'static str) -> PResult<T> {
+        let mut s = self.server.write().await;
+        s.last_error = Some(format!("{request}: {e}"));
+        Err(server_error(e))
+    }
+}
+
+#[async_trait]
+impl SyncClient for DirectClient {
+    type Error = sos_protocol::Error;
+
+    fn origin(&self) -> &Origin {
+        &self.origin
+    }
+
+    async fn account_exists(&self) -> PResult<bool> {
+        self.pass_gate("exists").await;
+        let s = self.server.read().await;
+        self.record("exists", 0, 0);
+        Ok(s.storage.is_some())
+    }
+
+    async fn create_account(&self, account: CreateSet) -> PResult<()> {
+        self.pass_gate("create").await;
+        let (account, n) = self.wire(account).await?;
+        let (target, account_id) = {
+            let s = self.server.read().await;
+            if s.storage.is_some() {
+                return Err(sos_protocol::Error::Network(sos_protocol::NetworkError::ResponseCode(http::StatusCode::CONFLICT)));
+            }
+            (s.target.clone(), s.account_id)
+        };
+        let target = target.with_account_id(&account_id);
+        match ServerStorage::create_account(target, &account_id, &account).await {
+            Ok(storage) => {
+                self.server.write().await.storage = Some(storage);
+                self.record("create", n, 0);
+                Ok(())
+            }
+            Err(e) => self.fail(e, "create").await,
+        }
+    }
+
+    async fn update_account(&self, account: UpdateSet) -> PResult<()> {
+        self.pass_gate("update").await;
+        let (account, n) = self.wire(account).await?;
+        let mut s = self.server.write().await;
+        let Some(storage) = s.storage.as_mut() else {
+            return Err(sos_protocol::Error::Network(sos_protocol::NetworkError::ResponseCode(http::StatusCode::NOT_FOUND)));
+        };
+        let mut outcome = MergeOutcome::default();
+        let r = storage.force_merge_update(account, &mut outcome).await;
+        drop(s);
+        match r {
+            Ok(()) => {
+                self.record("update", n, 0);
+                Ok(())
+            }
+            Err(e) => self.fail(e, "update").await,
+        }
+    }
+
+    async fn fetch_account(&self) -> PResult<CreateSet> {
+        self.pass_gate("fetch").await;
+        let s = self.server.read().await;
+        let Some(storage) = s.storage.as_ref() else {
+            return Err(sos_protocol::Error::Network(sos_protocol::NetworkError::ResponseCode(http::StatusCode::NOT_FOUND)));
+        };
+        let r = storage.create_set().await;
+        drop(s);
+        match r {
+            Ok(set) => {
+                let (set, n) = self.wire(set).await?;
+                self.record("fetch", 0, n);
+                Ok(set)
+            }
+            Err(e) => self.fail(e, "fetch").await,
+        }
+    }
+
+    async fn delete_account(&self) -> PResult<()> {
+        self.pass_gate("delete").await;
+        let mut s = self.server.write().await;
+        if let Some(mut storage) = s.storage.take() {
+            let _ = storage.delete_account().await;
+        }
+        Ok(())
+    }
+
+    async fn sync_status(&self) -> PResult<SyncStatus> {
+        self.pass_gate("status").await;
+        let s = self.server.read().await;
+        let Some(storage) = s.storage.as_ref() else {
+            return Err(sos_protocol::Error::Network(sos_protocol::NetworkError::ResponseCode(http::StatusCode::NOT_FOUND)));
+        };
+        let r = storage.sync_status().await;
+        drop(s);
+        match r {
+            Ok(st) => {
+                let (st, n) = self.wire(st).await?;
+                self.record("status", 0, n);
+                Ok(st)
+            }
+            Err(e) => self.fail(e, "status").await,
+        }
+    }
+
+    async fn sync(&self, packet: SyncPacket) -> PResult<SyncPacket> {
+        self.pass_gate("sync").await;
+        let (packet, n_out) = self.wire(packet).await?;
+        let mut s = self.server.write().await;
+        let Some(storage) = s.storage.as_mut() else {
+            return Err(sos_protocol::Error::Network(sos_protocol::NetworkError::ResponseCode(http::StatusCode::NOT_FOUND)));
+        };
+        let r = server_helpers::sync_account::<_, sos_server_storage::Error>(packet, storage).await;
+        drop(s);
+        match r {
+            Ok((packet, _outcome)) => {
+                let (packet, n_in) = self.wire(packet).await?;
+                self.record("sync", n_out, n_in);
+                Ok(packet)
+            }
+            Err(e) => self.fail(e, "sync").await,
+        }
+    }
+
+    async fn scan(&self, request: ScanRequest) -> PResult<ScanResponse> {
+        self.pass_gate("scan").await;
+        let (request, n_out) = self.wire(request).await?;
+        if request.limit > 256 {
+            return Err(sos_protocol::Error::Network(sos_protocol::NetworkError::ResponseCode(http::StatusCode::BAD_REQUEST)));
+        }
+        let s = self.server.read().await;
+        let Some(storage) = s.storage.as_ref() else {
+            return Err(sos_protocol::Error::Network(sos_protocol::NetworkError::ResponseCode(http::StatusCode::NOT_FOUND)));
+        };
+        let r = server_helpers::event_scan::<_, sos_server_storage::Error>(&request, storage).await;
+        drop(s);
+        match r {
+            Ok(resp) => {
+                let (resp, n_in) = self.wire(resp).await?;
+                self.record("scan", n_out, n_in);
+                Ok(resp)
+            }
+            Err(e) => self.fail(e, "scan").await,
+        }
+    }
+
+    async fn diff(&self, request: DiffRequest) -> PResult<DiffResponse> {
+        self.pass_gate("diff").await;
+        let (request, n_out) = self.wire(request).await?;
+        let s = self.server.read().await;
+        let Some(storage) = s.storage.as_ref() else {
+            return Err(sos_protocol::Error::Network(sos_protocol::NetworkError::ResponseCode(http::StatusCode::NOT_FOUND)));
+        };
+        let r = server_helpers::event_diff::<_, sos_server_storage::Error>(&request, storage).await;
+        drop(s);
+        match r {
+            Ok(resp) => {
+                let (resp, n_in) = self.wire(resp).await?;
+                self.record("diff", n_out, n_in);
+                Ok(resp)
+            }
+            Err(e) => self.fail(e, "diff").await,
+        }
+    }
+
+    async fn patch(&self, request: PatchRequest) -> PResult<PatchResponse> {
+        self.pass_gate("patch").await;
+        let (request, n_out) = self.wire(request).await?;
+        let mut s = self.server.write().await;
+        let Some(storage) = s.storage.as_mut() else {
+            return Err(sos_protocol::Error::Network(sos_protocol::NetworkError::ResponseCode(http::StatusCode::NOT_FOUND)));
+        };
+        let r = server_helpers::event_patch::<_, sos_server_storage::Error>(request, storage).await;
+        drop(s);
+        match r {
+            Ok((resp, _outcome)) => {
+                let (resp, n_in) = self.wire(resp).await?;
+                self.record("patch", n_out, n_in);
+                Ok(resp)
+            }
+            Err(e) => self.fail(e, "patch").await,
+        }
+    }
+}
+
+// ---------------------------------------------------------------------------
+// Bridge: the real RemoteSyncHandler / AutoMerge over the direct client
+// ---------------------------------------------------------------------------
+
+#[derive(Clone)]
+pub struct Bridge {
+    pub account_id: AccountId,
+    pub account: Arc<Mutex<LocalAccount>>,
+    pub client: DirectClient,
+    pub queue: FileTransferQueueSender,
+}
+
+#[async_trait]
+impl RemoteSyncHandler for Bridge {
+    type Client = DirectClient;
+    type Account = LocalAccount;
+    type Error = sos_net::Error;
+
+    fn direction(&self) -> SyncDirection {
+        SyncDirection::Push
+    }
+    fn client(&self) -> &Self::Client {
+        &self.client
+    }
+    fn origin(&self) -> &Origin {
+        self.client.origin()
+    }
+    fn account_id(&self) -> &AccountId {
+        &self.account_id
+    }
+    fn account(&self) -> Arc<Mutex<Self::Account>> {
+        self.account.clone()
+    }
+    fn file_transfer_queue(&self) -> &FileTransferQueueSender {
+        &self.queue
+    }
+    async fn execute_sync_file_transfers(&self) -> Result<(), Self::Error> {
+        Ok(())
+    }
+}
+
+#[async_trait]
+impl AutoMerge for Bridge {}
+
+// ---------------------------------------------------------------------------
+// Devices
+// ---------------------------------------------------------------------------
+
+pub struct Device {
+    pub idx: usize,
+    pub temp: tempfile::TempDir,
+    pub account: Arc<Mutex<LocalAccount>>,
+    pub bridge: Bridge,
+    /// virtual clock (unix nanos, step)
+    pub clock: (i128, i128),
+}
+
+pub struct SyncWorld {
+    pub cfg: AcctCfg,
+    pub server_db: bool,
+    pub account_id: AccountId,
+    pub password: SecretString,
+    pub server: SharedServer,
+    pub devices: Vec<Device>,
+    pub tap: Tap,
+}
+
+pub const BASE_TIME: i128 = 1_700_000_000i128 * 1_000_000_000;
+
+fn copy_dir(src: &std::path::Path, dst: &std::path::Path) -> std::io::Result<()> {
+    std::fs::create_dir_all(dst)?;
+    for e in std::fs::read_dir(src)? {
+        let e = e?;
+        let to = dst.join(e.file_name());
+        if e.file_type()?.is_dir() {
+            copy_dir(&e.path(), &to)?;
+        } else {
+            std::fs::copy(e.path(), &to)?;
+        }
+    }
+    Ok(())
+}
+
+fn make_bridge(idx: usize, account_id: AccountId, account: Arc<Mutex<LocalAccount>>, server: &SharedServer, tap: &Tap) -> Bridge {
+    let (queue, _) = tokio::sync::broadcast::channel::<FileTransferQueueRequest>(32);
+    let origin = Origin::new("direct".to_string(), "http://127.0.0.1:5053".parse().unwrap());
+    Bridge {
+        account_id,
+        account,
+        client: DirectClient {
+            server: server.clone(),
+            origin,
+            device: idx,
+            tap: tap.clone(),
+            gate: None,
+        },
+        queue,
+    }
+}
+
+impl SyncWorld {
+    /// Create the account on device 0 (with archive folder) and an empty server.
+    pub async fn new(cfg: &AcctCfg, server_db: bool) -> Result<Self, Failure> {
+        let temp = tempfile::Builder::new()
+            .prefix("sv-dev0-")
+            .tempdir()
+            .map_err(hf("harness/tempdir", "tempdir"))?;
+        let target = make_target(temp.path(), cfg.db).await?;
+        let password: SecretString = "correct horse battery staple verif".to_string().into();
+        sos_core::verif::set_clock(Some((BASE_TIME, 1_000_003)));
+        let mut account = LocalAccount::new_account_with_builder(
+            "verif-account".to_string(),
+            password.clone(),
+            target,
+            |b| b.create_file_password(true).create_archive(false),
+        )
+        .await
+        .map_err(hf("harness/new-account", "new_account"))?;
+        let account_id = *account.account_id();
+        let key: AccessKey = password.clone().into();
+        account
+            .sign_in(&key)
+            .await
+            .map_err(hf("harness/sign-in", "first sign_in"))?;
+        let clock = sos_core::verif::get_clock().unwrap_or((BASE_TIME, 1_000_003));
+        let server = new_server(account_id, server_db).await?;
+        let tap = Tap::default();
+        let account = Arc::new(Mutex::new(account));
+        let bridge = make_bridge(0, account_id, account.clone(), &server, &tap);
+        Ok(SyncWorld {
+            cfg: cfg.clone(),
+            server_db,
+            account_id,
+            password,
+            server,
+            devices: vec![Device { idx: 0, temp, account, bridge, clock }],
+            tap,
+        })
+    }
+
+    /// Clone device 0's storage into a new device (both must be quiescent).
+    pub async fn clone_device(&mut self, skew_nanos: i128) -> Result<usize, Failure> {
+        let idx = self.devices.len();
+        let temp = tempfile::Builder::new()
+            .prefix(&format!("sv-dev{idx}-"))
+            .tempdir()
+            .map_err(hf("harness/tempdir", "tempdir"))?;
+        // quiesce device 0: sign out and re-open afterwards so sqlite files are complete
+        {
+            let d0 = &self.devices[0];
+            let mut a = d0.account.lock().await;
+            a.sign_out().await.map_err(hf("harness/sign-out", "sign_out before clone"))?;
+        }
+        // replace device 0's account by a placeholder-free reopen after the copy
+        copy_dir(self.devices[0].temp.path(), temp.path()).map_err(hf("harness/copy", "copy device dir"))?;
+        let key: AccessKey = self.password.clone().into();
+        {
+            let d0 = &self.devices[0];
+            let mut a = d0.account.lock().await;
+            a.sign_in(&key).await.map_err(hf("harness/sign-in", "sign_in after clone"))?;
+        }
+        let target = make_target(temp.path(), self.cfg.db).await?;
+        let mut account = LocalAccount::new_unauthenticated(self.account_id, target)
+            .await
+            .map_err(hf("harness/open-clone", "new_unauthenticated on cloned dir"))?;
+        account.sign_in(&key).await.map_err(hf("harness/sign-in", "sign_in on cloned device"))?;
+        let account = Arc::new(Mutex::new(account));
+        let bridge = make_bridge(idx, self.account_id, account.clone(), &self.server, &self.tap);
+        let base = self.devices[0].clock.0 + skew_nanos;
+        self.devices.push(Device { idx, temp, account, bridge, clock: (base, 1_000_003) });
+        Ok(idx)
+    }
+
+    /// Run `f` with the device's virtual clock installed.
+    pub fn enter(&self, d: usize) {
+        sos_core::verif::set_clock(Some(self.devices[d].clock));
+    }
+    pub fn leave(&mut self, d: usize) {
+        if let Some(c) = sos_core::verif::get_clock() {
+            self.devices[d].clock = c;
+        }
+    }
+
+    /// One sync of device `d`; Ok(None) when the account was just created remotely.
+    pub async fn sync(&mut self, d: usize) -> Result<Option<MergeOutcome>, sos_net::Error> {
+        self.enter(d);
+        let bridge = self.devices[d].bridge.clone();
+        let r = bridge.execute_sync(&SyncOptions::default()).await;
+        self.leave(d);
+        r
+    }
+
+    pub async fn device_status(&self, d: usize) -> Result<SyncStatus, Failure> {
+        let a = self.devices[d].account.lock().await;
+        a.sync_status().await.map_err(hf("harness/device-status", "device sync_status"))
+    }
+
+    pub async fn server_status(&self) -> Result<Option<SyncStatus>, Failure> {
+        let s = self.server.read().await;
+        match s.storage.as_ref() {
+            None => Ok(None),
+            Some(st) => Ok(Some(st.sync_status().await.map_err(hf("harness/server-status", "server sync_status"))?)),
+        }
+    }
+}
+
+/// Describe where two statuses differ (log names), empty when equal.
+pub fn status_diff(a: &SyncStatus, b: &SyncStatus) -> Vec<String> {
+    let mut v = vec![];
+    let cs = |x: &sos_core::commit::CommitState| (x.1.root, x.1.length);
+    if cs(&a.identity) != cs(&b.identity) {
+        v.push(format!("identity({} vs {})", a.identity.1.length, b.identity.1.length));
+    }
+    if cs(&a.account) != cs(&b.account) {
+        v.push(format!("account({} vs {})", a.account.1.length, b.account.1.length));
+    }
+    if cs(&a.device) != cs(&b.device) {
+        v.push(format!("device({} vs {})", a.device.1.length, b.device.1.length));
+    }
+    if a.files.as_ref().map(cs) != b.files.as_ref().map(cs) {
+        v.push(format!("files({:?} vs {:?})", a.files.as_ref().map(|f| f.1.length), b.files.as_ref().map(|f| f.1.length)));
+    }
+    let ka: BTreeSet<&VaultId> = a.folders.keys().collect();
+    let kb: BTreeSet<&VaultId> = b.folders.keys().collect();
+    for k in ka.union(&kb) {
+        match (a.folders.get(*k), b.folders.get(*k)) {
+            (Some(x), Some(y)) => {
+                if cs(x) != cs(y) {
+                    v.push(format!("folder {}({} vs {})", &k.to_string()[..8], x.1.length, y.1.length));
+                }
+            }
+            (Some(_), None) => v.push(format!("folder {} only-left", &k.to_string()[..8])),
+            (None, Some(_)) => v.push(format!("folder {} only-right", &k.to_string()[..8])),
+            _ => {}
+        }
+    }
+    v
+}
+
+// ---------------------------------------------------------------------------
+// Edits made on a device
+// ---------------------------------------------------------------------------
+
+#[derive(Clone, Debug, Serialize, Deserialize, PartialEq, Eq, Hash)]
+pub enum Edit {
+    CreateSecret { folder: u16, label: String, text: String },
+    UpdateSecret { sec: u16, label: String, text: String },
+    DeleteSecret { sec: u16 },
+    RenameFolder { folder: u16, name: String },
+    SetDescription { folder: u16, text: String },
+    SetFlags { folder: u16, flags: u8 },
+    CreateFolder { name: String },
+    DeleteFolder { folder: u16 },
+    RenameAccount { name: String },
+    /// trust a (fixed pool) device key in the device log
+    TrustDevice { key: u8 },
+    RevokeDevice { key: u8 },
+    /// append a synthetic file event to the file log
+    FileEvent { kind: u8, n: u8 },
+    CompactFolder { folder: u16 },
+}
+
+impl Edit {
+    pub fn log_class(&self) -> &'static str {
+        match self {
+            Edit::CreateSecret { .. } | Edit::UpdateSecret { .. } | Edit::DeleteSecret { .. } | Edit::SetDescription { .. } => "folder",
+            Edit::RenameFolder { .. } | Edit::SetFlags { .. } => "folder+account",
+            Edit::CreateFolder { .. } | Edit::DeleteFolder { .. } => "account+identity",
+            Edit::RenameAccount { .. } => "account",
+            Edit::TrustDevice { .. } | Edit::RevokeDevice { .. } => "device",
+            Edit::FileEvent { .. } => "files",
+            Edit::CompactFolder { .. } => "rewrite",
+        }
+    }
+}
+
+/// Folders of a device in a stable order and their secrets in a stable order.
+///
+/// Ids are random per run, so the order is by content: default folder first,
+/// then by name; secrets by (label, exposed value). Ties are between
+/// equivalent items and are broken by id.
+pub async fn listing(account: &LocalAccount) -> Result<Vec<(VaultId, Vec<SecretId>)>, Failure> {
+    let mut folders = account.list_folders().await.map_err(hf("harness/list-folders", "list_folders"))?;
+    folders.sort_by_key(|s| (!s.flags().is_default(), s.name().to_string(), *s.id()));
+    let mut out = vec![];
+    for f in folders {
+        let ids = account.list_secret_ids(f.id()).await.map_err(hf("harness/list-ids", "list_secret_ids"))?;
+        let mut keyed = vec![];
+        for id in ids {
+            let k = match account.read_secret(&id, Some(f.id())).await {
+                Ok((row, _)) => (row.meta().label().to_string(), proj_secret(row.secret()).to_string()),
+                Err(_) => (String::new(), String::new()),
+            };
+            keyed.push((k, id));
+        }
+        keyed.sort();
+        out.push((*f.id(), keyed.into_iter().map(|(_, id)| id).collect()));
+    }
+    Ok(out)
+}
+
+fn note(label: &str, text: &str) -> (sos_vault::secret::SecretMeta, sos_vault::secret::Secret) {
+    build_secret(&SecretSpec {
+        kind: 0,
+        label: label.to_string(),
+        tags: vec![],
+        favorite: false,
+        a: text.to_string(),
+        b: String::new(),
+        big: 0,
+        comment: None,
+        recovery: None,
+        fields: 0,
+        opt: false,
+    })
+}
+
+/// Apply an edit on a device. Returns false when the edit was not applicable.
+pub async fn apply_edit(w: &mut SyncWorld, d: usize, e: &Edit) -> Result<bool, Failure> {
+    w.enter(d);
+    let r = apply_edit_inner(w, d, e).await;
+    w.leave(d);
+    r
+}
+
+async fn apply_edit_inner(w: &mut SyncWorld, d: usize, e: &Edit) -> Result<bool, Failure> {
+    let account = w.devices[d].account.clone();
+    let mut a = account.lock().await;
+    let list = listing(&a).await?;
+    let user_folders: Vec<VaultId> = {
+        let fs = a.list_folders().await.map_err(hf("harness/list-folders", "list_folders"))?;
+        let mut v: Vec<(String, VaultId)> = fs.iter().filter(|s| !s.flags().is_default()).map(|s| (s.name().to_string(), *s.id())).collect();
+        v.sort();
+        v.into_iter().map(|(_, id)| id).collect::<Vec<VaultId>>()
+    };
+    let flat: Vec<(VaultId, SecretId)> = list.iter().flat_map(|(f, ids)| ids.iter().map(move |i| (*f, *i))).collect();
+    match e {
+        Edit::CreateSecret { folder, label, text } => {
+            let fid = list[pick(*folder, list.len())].0;
+            let (m, s) = note(label, text);
+            a.create_secret(m, s, AccessOptions { folder: Some(fid), ..Default::default() })
+                .await
+                .map_err(hf("edit/create-secret", "create_secret"))?;
+        }
+        Edit::UpdateSecret { sec, label, text } => {
+            if flat.is_empty() {
+                return Ok(false);
+            }
+            let (fid, sid) = flat[pick(*sec, flat.len())];
+            let (m, s) = note(label, text);
+            a.update_secret(&sid, m, Some(s), AccessOptions { folder: Some(fid), ..Default::default() })
+                .await
+                .map_err(hf("edit/update-secret", "update_secret"))?;
+        }
+        Edit::DeleteSecret { sec } => {
+            if flat.is_empty() {
+                return Ok(false);
+            }
+            let (fid, sid) = flat[pick(*sec, flat.len())];
+            a.delete_secret(&sid, AccessOptions { folder: Some(fid), ..Default::default() })
+                .await
+                .map_err(hf("edit/delete-secret", "delete_secret"))?;
+        }
+        Edit::RenameFolder { folder, name } => {
+            let fid = list[pick(*folder, list.len())].0;
+            a.rename_folder(&fid, name.clone()).await.map_err(hf("edit/rename-folder", "rename_folder"))?;
+        }
+        Edit::SetDescription { folder, text } => {
+            let fid = list[pick(*folder, list.len())].0;
+            a.set_folder_description(&fid, text).await.map_err(hf("edit/set-description", "set_folder_description"))?;
+        }
+        Edit::SetFlags { folder, flags } => {
+            if user_folders.is_empty() {
+                return Ok(false);
+            }
+            let fid = user_folders[pick(*folder, user_folders.len())];
+            let fl = crate::engine_acct::FLAG_CHOICES[(*flags % 4) as usize];
+            a.update_folder_flags(&fid, VaultFlags::from_bits(fl).unwrap())
+                .await
+                .map_err(hf("edit/set-flags", "update_folder_flags"))?;
+        }
+        Edit::CreateFolder { name } => {
+            if list.len() >= 4 {
+                return Ok(false);
+            }
+            let options = NewFolderOptions {
+                name: name.clone(),
+                flags: None,
+                key: None,
+                cipher: Some(w.cfg.cipher()),
+                kdf: Some(w.cfg.kdf()),
+            };
+            a.create_folder(options).await.map_err(hf("edit/create-folder", "create_folder"))?;
+        }
+        Edit::DeleteFolder { folder } => {
+            if user_folders.is_empty() {
+                return Ok(false);
+            }
+            let fid = user_folders[pick(*folder, user_folders.len())];
+            a.delete_folder(&fid).await.map_err(hf("edit/delete-folder", "delete_folder"))?;
+        }
+        Edit::RenameAccount { name } => {
+            a.rename_account(name.clone()).await.map_err(hf("edit/rename-account", "rename_account"))?;
+        }
+        Edit::TrustDevice { key } => {
+            use sos_core::device::{DevicePublicKey, TrustedDevice};
+            use sos_core::events::DeviceEvent;
+            let k: DevicePublicKey = [0x40 + (*key % 3); 32].into();
+            let when = time::OffsetDateTime::from_unix_timestamp(1_700_000_000).unwrap();
+            let dev = TrustedDevice::new(k, Some(Default::default()), Some(when));
+            a.patch_devices_unchecked(&[DeviceEvent::Trust(dev)])
+                .await
+                .map_err(hf("edit/trust-device", "patch_devices_unchecked"))?;
+        }
+        Edit::RevokeDevice { key } => {
+            use sos_core::device::DevicePublicKey;
+            use sos_core::events::DeviceEvent;
+            let k: DevicePublicKey = [0x40 + (*key % 3); 32].into();
+            // revoking a key that is not trusted is refused by the account; append the event through the same API
+            if a.patch_devices_unchecked(&[DeviceEvent::Revoke(k)]).await.is_err() {
+                return Ok(false);
+            }
+        }
+        Edit::FileEvent { kind, n } => {
+            use sos_core::events::FileEvent;
+            use sos_core::{ExternalFileName, SecretPath};
+            let fid = list[0].0;
+            let path = SecretPath(fid, uuid::Uuid::from_bytes([0x70 + (*n % 3); 16]));
+            let name: ExternalFileName = [0x50 + (*n % 3); 32].into();
+            let ev = if kind % 2 == 0 { FileEvent::CreateFile(path, name) } else { FileEvent::DeleteFile(path, name) };
+            let log = a.file_log().await.map_err(hf("edit/file-log", "file_log"))?;
+            let mut log = log.write().await;
+            log.apply(&[ev]).await.map_err(hf("edit/file-event", "apply file event"))?;
+        }
+        Edit::CompactFolder { folder } => {
+            let fid = list[pick(*folder, list.len())].0;
+            a.compact_folder(&fid).await.map_err(hf("edit/compact-folder", "compact_folder"))?;
+        }
+    }
+    Ok(true)
+}
+
+// ---------------------------------------------------------------------------
+// Observation helpers
+// ---------------------------------------------------------------------------
+
+#[derive(Clone, Debug, PartialEq, Eq)]
+pub struct Rec {
+    pub time: i128,
+    pub commit: [u8; 32],
+    pub bytes: Vec<u8>,
+}
+
+pub fn rec_of(r: &EventRecord) -> Rec {
+    let t: time::OffsetDateTime = r.time().clone().into();
+    Rec { time: t.unix_timestamp_nanos(), commit: *r.commit().as_ref(), bytes: r.event_bytes().to_vec() }
+}
+
+async fn stream_log<T, L>(log: &L) -> Result<Vec<Rec>, String>
+where
+    T: Default + binary_stream::futures::Encodable + binary_stream::futures::Decodable + Send + Sync + 'static,
+    L: EventLog<T>,
+{
+    let mut out = vec![];
+    let mut s = log.record_stream(false).await;
+    while let Some(r) = s.next().await {
+        out.push(rec_of(&r.map_err(|e| e.to_string())?));
+    }
+    Ok(out)
+}
+
+/// All logs of a storage (device account or server) as record lists keyed by log name.
+pub async fn all_logs<S: StorageEventLogs>(s: &S) -> Result<BTreeMap<String, Vec<Rec>>, Failure> {
+    let mut m = BTreeMap::new();
+    let e = |x: String| Failure::new("harness/stream", x);
+    {
+        let l = s.identity_log().await.map_err(hf("harness/log", "identity_log"))?;
+        let l = l.read().await;
+        m.insert("identity".to_string(), stream_log(&*l).await.map_err(e)?);
+    }
+    {
+        let l = s.account_log().await.map_err(hf("harness/log", "account_log"))?;
+        let l = l.read().await;
+        m.insert("account".to_string(), stream_log(&*l).await.map_err(e)?);
+    }
+    {
+        let l = s.device_log().await.map_err(hf("harness/log", "device_log"))?;
+        let l = l.read().await;
+        m.insert("device".to_string(), stream_log(&*l).await.map_err(e)?);
+    }
+    {
+        let l = s.file_log().await.map_err(hf("harness/log", "file_log"))?;
+        let l = l.read().await;
+        m.insert("files".to_string(), stream_log(&*l).await.map_err(e)?);
+    }
+    let folders = s.folder_details().await.map_err(hf("harness/log", "folder_details"))?;
+    for f in folders {
+        let l = s.folder_log(f.id()).await.map_err(hf("harness/log", "folder_log"))?;
+        let l = l.read().await;
+        m.insert(format!("folder:{}", f.id()), stream_log(&*l).await.map_err(e)?);
+    }
+    Ok(m)
+}
+
+/// Decrypted snapshot of every folder a device serves.
+pub async fn device_snapshot(account: &LocalAccount) -> Result<Value, Failure> {
+    let mut out = BTreeMap::new();
+    let folders = account.list_folders().await.map_err(hf("harness/list-folders", "list_folders"))?;
+    for f in folders {
+        let key = account
+            .find_folder_password(f.id())
+            .await
+            .map_err(hf("harness/folder-password", "find_folder_password"))?
+            .ok_or_else(|| Failure::new("sync/folder-password-missing", format!("device has no password for folder {}", f.id())))?;
+        let folder = account.folder(f.id()).await.map_err(hf("harness/folder", "Account::folder"))?;
+        let vault = {
+            let ap = folder.access_point();
+            let ap = ap.lock().await;
+            sos_vault::SecretAccess::vault(&*ap).clone()
+        };
+        let d = decrypt_vault(&vault, &key).await.map_err(|e| Failure::new("sync/served-folder-undecryptable", format!("folder {} ({}): {e}", f.name(), f.id())))?;
+        out.insert(f.id().to_string(), d);
+    }
+    Ok(json!(out))
+}
+
+// ---------------------------------------------------------------------------
+// Stubs filled in by the property modules
+// ---------------------------------------------------------------------------
 
 pub fn run_c02_sync(_shard: &Shard, _rep: &mut Report) {}
 
 pub fn replay_c02_sync(_shard: &Shard, _case: &Value) -> CheckResult {
     Ok(())
 }
+
+#[allow(dead_code)]
+fn _unused(_: CommitHash, _: ForceMerge_) {}
+#[allow(non_camel_case_types, dead_code)]
+type ForceMerge_ = Option<Box<dyn ForceMerge<Error = sos_account::Error>>>;
